@@ -380,7 +380,15 @@ def parseGroupsIn : Nat → List String → Option (List Cli.Group × List Strin
     | [] => none
 
 /-! ## `seq` projects: `plan …` (see harness/src/c20.rs) answers, per tag, the validated chain and the groups each entry selects -/
-def lowerAscii (t : Text) : Text := t.map fun c => if 65 ≤ c && c ≤ 90 then c + 32 else c
+/-- `str::to_lowercase` on the characters the generators use in names: exact on ASCII, Latin-1 and Latin Extended-A
+    (U+0130, whose lower case is two characters, is not generated); the identity elsewhere -/
+def lowerAscii (t : Text) : Text := t.map fun c =>
+  if 65 ≤ c && c ≤ 90 then c + 32
+  else if 0xC0 ≤ c && c ≤ 0xDE && c != 0xD7 then c + 32
+  else if (0x100 ≤ c && c ≤ 0x137 && c != 0x130) || (0x14A ≤ c && c ≤ 0x177) then (if c % 2 == 0 then c + 1 else c)
+  else if (0x139 ≤ c && c ≤ 0x148) || (0x179 ≤ c && c ≤ 0x17E) then (if c % 2 == 1 then c + 1 else c)
+  else if c == 0x178 then 0xFF
+  else c
 
 def parseOptCounted (ts : List String) : Option (Option Text × List String) :=
   match ts with
